@@ -50,13 +50,15 @@ class _BorrowedAsyncIterator(AsyncGenerator[T, S]):
         # itself from __aiter__. If we do not shadow this then
         # running aiter(self).aclose closes the underlying iterator.
         self.__anext__ = self._wrapper.__anext__  # type: ignore
+        # Look the methods up on use: ``iterator`` may be borrowed itself and
+        # replaces its methods when it is closed.
         if hasattr(iterator, "asend"):
-            self.asend = (
-                iterator.asend  # pyright: ignore[reportUnknownMemberType,reportAttributeAccessIssue]
+            self.asend = lambda value: iterator.asend(  # type: ignore
+                value
             )
         if hasattr(iterator, "athrow"):
-            self.athrow = (
-                iterator.athrow  # pyright: ignore[reportUnknownMemberType,reportAttributeAccessIssue]
+            self.athrow = lambda *args: iterator.athrow(  # type: ignore
+                *args
             )
 
     def __aiter__(self) -> AsyncGenerator[T, S]:
